@@ -198,6 +198,8 @@ static void do_model(char* desc) {
   DUMP("tree_bodyadr", m->tree_bodyadr, m->ntree) DUMP("tree_bodynum", m->tree_bodynum, m->ntree)
   DUMP("tree_sleep_policy", m->tree_sleep_policy, m->ntree) DUMP("geom_bodyid", m->geom_bodyid, m->ngeom)
   DUMP("dof_treeid", m->dof_treeid, m->nv) DUMP("jnt_bodyid", m->jnt_bodyid, m->njnt)
+  DUMP("pair_geom1", m->pair_geom1, (int)m->npair) DUMP("pair_geom2", m->pair_geom2, (int)m->npair)
+  DUMP("eq_type", m->eq_type, (int)m->neq)
   printf(" | dof_length "); print_hex(m->dof_length, m->nv);
   printf("\n");
 }
@@ -505,10 +507,11 @@ static Field* findf(const char* name) { for (int i = 0; i < nF; i++) if (!strcmp
 
 // Hash of the results of a step: every buffer array of mjData (MJDATA_POINTERS) except the sleep countdown
 // tree_asleep itself, the rows [0, nefc) of the defining efc arrays, and the semantic fields of the contacts.
-// Other arena arrays are skipped: the arena is not cleared between steps, their unused parts are unspecified.
+// Other arena arrays are skipped: the arena is not cleared between steps, their unused parts are unspecified
+// (efc_state included: not every solver writes every row).
 static int narena_first = -1;
 static int hashed_arena(const char* nm) {
-  static const char* ok[] = {"efc_type", "efc_id", "efc_pos", "efc_vel", "efc_aref", "efc_force", "efc_state", "efc_D", "efc_R", "efc_margin", NULL};
+  static const char* ok[] = {"efc_type", "efc_id", "efc_pos", "efc_vel", "efc_aref", "efc_force", "efc_D", "efc_R", "efc_margin", NULL};
   for (int i = 0; ok[i]; i++) if (!strcmp(nm, ok[i])) return 1;
   return 0;
 }
